@@ -880,12 +880,16 @@ func ThrottleTime[T any](interval time.Duration) func(Observable[T]) Observable[
 		return NewObservableWithContext(func(subscriberCtx context.Context, destination Observer[T]) Teardown {
 			lastAt := int64(0)
 
+			// The first value opens the first window, however young the monotonic clock is.
+			first := true
+
 			sub := source.SubscribeWithContext(
 				subscriberCtx,
 				NewObserverWithContext(
 					func(ctx context.Context, value T) {
 						now := xtime.NowNanoMonotonic()
-						if lastAt+intervalNano < now {
+						if first || lastAt+intervalNano < now {
+							first = false
 							lastAt = now
 
 							destination.NextWithContext(ctx, value)
